@@ -48,15 +48,19 @@ RULE = (
     "from a fresh rebuild of the specification at the proposed values, (b) the decision rule with the recorded "
     "uniform, (c) an independent Hastings ratio per operator type, (d) bit-identical restoration after a reject "
     "(and the proposed state after an accept), (f) tuning direction; every logged row against (e). Non-trivial = "
-    "the run contains an accept, a reject and >= 2 operator types. Distinct = (target description, operator set, "
-    "iterations, seed)."
+    "the run contains an accept, a reject and >= 2 operator types. Distinct = the complete generated "
+    "case (target, operator set, loggers, iterations, seed)."
 )
 ASSUMPTIONS = [
     "operators are attached to parameters of the kind their callers attach them to (scaler: positive; sliding window / "
     "HMC: unconstrained; Dirichlet: simplex; block update: skygrid log-field + precision); other attachments leave the "
     "support and are mis-specified runs",
     "density comparisons: |used - fresh| <= 1e-9 * max(1,|fresh|); decision rule not asserted when |log u - (delta + H)| "
-    "< 1e-7 (rounding tie)",
+    "< 1e-7 (rounding tie); delta and H in the decision rule are the oracle's values (fresh rebuild, independent Hastings "
+    "ratio); where the Hastings reference is unguarded or already reported as different, the ratio returned by the operator "
+    "is used so that one root cause gives one bucket; the acceptance probability handed to tune() is compared with "
+    "min(1, exp(delta + H)) to 1e-7 (kind acceptance_probability: a stale carried log density shows here at every "
+    "iteration, in the decision only when u falls between the two values)",
     "Hastings oracle: scaler / sliding window - the factor / shift is read off the states and matched to the recorded "
     "uniform (s = a + u(1/a - a), shift = w(u - 1/2)); uniform-in-s gives -log s, a symmetric shift gives 0. Dirichlet - "
     "log Dir(x | c x') - log Dir(x' | c x) with scipy gammaln, and the proposal is re-drawn from "
@@ -279,7 +283,9 @@ def operators(draw, c):
 @st.composite
 def cases(draw, targets=("toy", "toy", "toy", "skygrid", "skygrid", "phylo"), max_iter=200):
     t = draw(st.sampled_from(list(targets)))
-    c = {"target": t, "torch_seed": draw(st.integers(0, 2**31 - 1)), "iterations": draw(st.integers(20, max_iter if t != "phylo" else min(max_iter, 100)))}
+    # three small draws (small ranges are drawn evenly; one wide integer range is biased to a few values)
+    tseed = sum(draw(st.integers(0, 255)) << (8 * k) for k in range(3))
+    c = {"target": t, "torch_seed": tseed, "iterations": draw(st.integers(20, max_iter if t != "phylo" else min(max_iter, 100)))}
     if t == "toy":
         c.update(draw(toy_target()))
     elif t == "skygrid":
@@ -872,9 +878,6 @@ def bold_sign(kind):
 
 
 # =========================================================================== body
-BENIGN = "benign"
-
-
 def _classify_exception(e, mc, c):
     fr = impl_frame(e) or ""
     if isinstance(e, ZeroDivisionError) and fr.endswith("mcmc.py:run") and mc._epoch > c["iterations"]:
@@ -1132,18 +1135,9 @@ def _body(c, tmp):
         labels["run_uses:" + t] = 1
     labels["run:adaptation_" + ("mixed" if len(set(o["adapt"] for o in c["ops"])) > 1 else ("on" if c["ops"][0]["adapt"] else "off"))] = 1
     res.nontrivial = n_acc > 0 and n_rej > 0 and len(used_types) >= 2
-    res.key = (c["target"], rnd(jkey(c)), [(o["type"], o["params"], rnd(o["weight"]), rnd(o["tuning"]), o["adapt"]) for o in c["ops"]], c["iterations"], c["torch_seed"])
+    res.key = c  # the complete generated run (target, operator set, loggers, iterations, seed)
     res.labels = labels
     return res
-
-
-def jkey(c):
-    if c["target"] == "toy":
-        return [(b["kind"], b["n"], b["init"][:2]) for b in c["blocks"]]
-    if c["target"] == "skygrid":
-        return [c["g"]["n"], c["m"], c["gamma"][:3], c["tau"]]
-    p = c["phylo"]
-    return [p["n"], p["topology"], p["seqs"], p["bl"][:2]]
 
 
 def read_log(c, lg, j, tmp, containers, mc, ids, sizes):
